@@ -252,9 +252,13 @@ def later_stream(rep, drv, real, rng, quick, cases, baselines):
     runs = fails = ties = sets_done = late_base_fail = n_fresh = unsuitable = 0
     polluted_sets = 0
     hist: dict[str, int] = {}
+    hangs_at_start = real.hangs
+    fresh_hangs = 0
     for gi in gis:
         if sets_done >= n_sets:
             break
+        if real.hangs >= max(4, hangs_at_start + 2) or fresh_hangs >= 2 or (hangs_at_start >= 4 and sets_done >= 1):
+            break         # (the run has failed already and every further hang costs a watchdog period)
         texts, _ = baselines[(gi, True, False)]
         goods, aux = include_goods(rng, list(texts.items()), gi)
         gnames = [n for n, _ in goods]
@@ -268,7 +272,10 @@ def later_stream(rep, drv, real, rng, quick, cases, baselines):
             if n_fresh >= n_fresh_max:
                 continue
             n_fresh += 1
+            if base["hang"] and hangs_at_start >= 4:
+                continue      # (Project() hangs on valid files since the earlier streams: reported there)
             fbase = fresh_run(base_files, base_disk)
+            fresh_hangs += bool(fbase["hang"])
             if fbase["hang"] or fbase["escaped"] is not None or fbase.get("files") != gnames:
                 unsuitable += 1   # (an INCLUDE line after the opener does not suit this set, e.g. an interface body)
                 continue
@@ -322,6 +329,7 @@ def later_stream(rep, drv, real, rng, quick, cases, baselines):
             if fresh:
                 n_fresh += 1
                 obs = fresh_run(files, disk)
+                fresh_hangs += bool(obs["hang"])
             else:
                 obs = norm_obs(real.run(files, disk=disk, later=True, watchdog=20))
             runs += 1
@@ -348,7 +356,7 @@ def later_stream(rep, drv, real, rng, quick, cases, baselines):
             if why:
                 fails += 1
                 rep.failing_input(dict(case, why=why, observed_files=obs.get("files"), warns=obs.get("warns")), None)
-            if real.hangs >= 4:
+            if real.hangs >= max(4, hangs_at_start + 2) or fresh_hangs >= 2:
                 break
     return {"later_runs": runs, "later_sets": sets_done, "later_failing": fails, "later_correspondence_disagreements": ties,
             "later_runs_in_a_process_of_their_own": n_fresh,
